@@ -160,7 +160,28 @@ fn cut_char_boundary(s: &str, mut at: usize) -> usize {
 
 pub fn gen_hostile(g: &Grammar, seeds: &Seeds, rng: &mut Rng) -> Hostile {
     let (doc, text) = rng.pick(&seeds.docs);
-    match rng.below(16) {
+    match rng.below(17) {
+        16 => {
+            // an A2ML block (raw text token) where a string / identifier / number is expected
+            let raw = if rng.coin() {
+                rng.pick(HOSTILE_A2ML).to_string()
+            } else {
+                rng.pick(&["\"", "\"\"", "\"x", "x\"", "'", "\\", "0", ""]).to_string()
+            };
+            let sep = *rng.pick(&["", " ", "\n"]);
+            let blk = format!("/begin A2ML{sep}{raw}{sep}/end A2ML");
+            let body = match rng.below(5) {
+                0 => format!("/begin IF_DATA x {blk} /end IF_DATA"),
+                1 => format!("/begin MEASUREMENT m {blk} UBYTE NO_COMPU_METHOD 0 0 0 255 /end MEASUREMENT"),
+                2 => format!("/begin MOD_PAR {blk} /end MOD_PAR"),
+                3 => format!("{blk} {blk}"),
+                _ => format!("/begin GROUP g \"\" /begin ANNOTATION ANNOTATION_LABEL {blk} /end ANNOTATION /end GROUP"),
+            };
+            Hostile {
+                kind: "a2ml_in_odd_place",
+                bytes: wrap_module(&body).into_bytes(),
+            }
+        }
         0 => {
             let n = rng.urange(0, 300);
             let bytes: Vec<u8> = (0..n).map(|_| rng.next_u64() as u8).collect();
